@@ -17,10 +17,11 @@ Proof.
   intros (HR & HP & HM & HL & HO & HD) Hv Hr. cbn [fst snd] in *.
   set (p' := match plock g n with Some x => LBitS n (2 * k) x | None => LBitA n (2 * k) end).
   inv6.
-  - apply (InvR_take g (set_ref g n (2 * k + 3)) vs rf t n s k Idle p' true (2 * k + 3)); auto.
+  - apply (InvR_take g (set_ref g n (2 * k + 3)) vs rf t n s k Idle p' true (2 * k + 3)); [exact HR|exact Hv|exact Hr| | | | | | |].
     + cbn. unfold updn. now rewrite Nat.eqb_refl.
     + intros n0 N. cbn. unfold updn. destruct (Nat.eqb_spec n0 n); [congruence|reflexivity].
     + cbn. lia.
+    + reflexivity.
     + intros n0. unfold p'. destruct (plock g n); reflexivity.
     + intros n0. unfold p'. destruct (plock g n); reflexivity.
     + unfold p'. destruct (plock g n); cbn; unfold updn; rewrite Nat.eqb_refl; lia.
@@ -46,12 +47,13 @@ Proof.
   intros (HR & HP & HM & HL & HO & HD) Hv. cbn [fst snd] in *.
   assert (H4 : refspin g n = c + 3) by (destruct HR as (_ & _ & _ & R4); specialize (R4 t); rewrite Hv in R4; exact R4).
   inv6.
-  - apply (InvR_give g (set_ref g n (c + 2)) vs rf t n s (LBitS n c x) (LWait n x) false (c + 2)); auto.
+  - apply (InvR_give g (set_ref g n (c + 2)) vs rf t n s (LBitS n c x) (LWait n x) false (c + 2)); [exact HR|exact Hv| | | | | | | |].
     + cbn. apply Nat.eqb_refl.
     + cbn. unfold updn. now rewrite Nat.eqb_refl.
     + intros n0 N. cbn. unfold updn. destruct (Nat.eqb_spec n0 n); [congruence|reflexivity].
     + cbn. lia.
     + intros n0. cbn. lia.
+    + intros n0. reflexivity.
     + intros n0 N. cbn. destruct (Nat.eqb_spec n n0); congruence.
     + exact I.
   - apply InvP_frame with (g := g); auto; rewrite ?Hv; intros; fin.
@@ -68,11 +70,13 @@ Lemma step_cas_unlock_keep g vs rf tr t n k s :
 Proof.
   intros (HR & HP & HM & HL & HO & HD) Hv Hr Hk. cbn [fst snd] in *.
   inv6.
-  - apply (InvR_take g (set_ref g n (S (2 * k))) vs rf t n s k (URel n) (UBit n (2 * k) None) false (S (2 * k))); auto.
+  - apply (InvR_take g (set_ref g n (S (2 * k))) vs rf t n s k (URel n) (UBit n (2 * k) None) false (S (2 * k))); [exact HR|exact Hv|exact Hr| | | | | | |].
     + cbn. unfold updn. now rewrite Nat.eqb_refl.
     + intros n0 N. cbn. unfold updn. destruct (Nat.eqb_spec n0 n); [congruence|reflexivity].
     + cbn. lia.
+    + reflexivity.
     + intros n0. cbn. lia.
+    + intros n0. reflexivity.
     + cbn. unfold updn. rewrite Nat.eqb_refl. split; [lia|auto].
   - apply InvP_frame with (g := g); auto; rewrite ?Hv; intros; fin.
   - apply InvM_frame with (g := g); auto; rewrite ?Hv; intros; fin.
@@ -95,10 +99,13 @@ Proof.
   assert (Hoth : forall t0, t0 <> t -> nrefs (vs t0) n = 0).
   { intros t0 N. destruct HR as (R1 & _). rewrite <- R1. apply (len1_only t); auto; lia. }
   inv6.
-  - apply (InvR_take g (set_plock (set_ref g n 3) n None) vs rf t n s 1 (URel n) (UBit n 2 (plock g n)) false 3); auto.
+  - apply (InvR_take g (set_plock (set_ref g n 3) n None) vs rf t n s 1 (URel n) (UBit n 2 (plock g n)) false 3); [exact HR|exact Hv|exact Hr| | | | | | |].
     + cbn. unfold updn. now rewrite Nat.eqb_refl.
     + intros n0 N. cbn. unfold updn. destruct (Nat.eqb_spec n0 n); [congruence|reflexivity].
+    + reflexivity.
+    + reflexivity.
     + intros n0. cbn. lia.
+    + intros n0. reflexivity.
     + cbn. unfold updn. rewrite Nat.eqb_refl. split; [lia|congruence].
   - destruct HP as (P1 & P2 & P3).
     assert (Hnu : forall t0 x0, ~ uses (upd vs t (UBit n 2 (plock g n), s) t0) n x0).
@@ -142,7 +149,7 @@ Lemma step_st_unlock g vs rf tr t n c o s :
       (tr ++ Conc.tag t [EvAcc KSt (obj_ref n) true]).
 Proof.
   intros (HR & HP & HM & HL & HO & HD) Hv. cbn [fst snd] in *.
-  assert (H4 : refspin g n = c + 1) by (destruct HR as (_ & _ & _ & R4); specialize (R4 t); rewrite Hv in R4; tauto).
+  assert (H4 : refspin g n = c + 1) by (destruct HR as (_ & _ & _ & R4); specialize (R4 t); rewrite Hv in R4; cbn in R4; tauto).
   assert (Hc : c >= 2).
   { assert (Hb : bitph (fst (vs t)) n = true) by (rewrite Hv; cbn; apply Nat.eqb_refl).
     destruct (R_bit g vs rf t n HR Hb) as [E _]. destruct HR as (R1 & _). specialize (R1 t n). rewrite Hv in R1.
@@ -150,7 +157,7 @@ Proof.
     pose proof (count_occ_bound Nat.eq_dec t (rf n)). lia. }
   set (p' := match o with Some y => UDe y | None => Idle end).
   inv6.
-  - apply (InvR_give g (set_ref g n (c - 2)) vs rf t n s (UBit n c o) p' true (c - 2)); auto.
+  - apply (InvR_give g (set_ref g n (c - 2)) vs rf t n s (UBit n c o) p' true (c - 2)); [exact HR|exact Hv| | | | | | | |].
     + cbn. apply Nat.eqb_refl.
     + cbn. unfold updn. now rewrite Nat.eqb_refl.
     + intros n0 N. cbn. unfold updn. destruct (Nat.eqb_spec n0 n); [congruence|reflexivity].
